@@ -5,10 +5,18 @@ from mc import core, det, domains, sse
 PROPERTY = 'C04'
 ENGINE = 'E1 bounded-exhaustive enumeration of (scheme, configuration point, profile, content variant); byte-level inspection of EDB and tokens'
 LEVEL = 'model_checking'
+DIRECTED_ADDITIONS = 'third setup by a brand-new scheme object, 16..256-posting setups, duplicate identifier inside a list, two deep / pickled copies of one scheme object'      # members added during the seeded-change campaign (DESIGN 7); counted under their own vacuity counters
+
 CHUNK = 30
 
 
 def describe(tier):
+    d = _describe(tier)
+    d['rule'] = d['rule'] + ' Directed additions: ' + DIRECTED_ADDITIONS + '.'
+    return d
+
+
+def _describe(tier):
     n = 7 if tier == 'quick' else 9
     return {
         'rule': 'case = (scheme, configuration point with identifier size >= 8, every partition of every N<=%d in both orders, content '
